@@ -23,6 +23,11 @@ prop("C25", "K", "model_checking",
      technique="Kani/CBMC bounded model checking of the real sub-iterator code against a reference walk",
      outside="ModuleIterator::curr_op / curr_loc glue that reads the operator out of the real Module (one Vec index) beyond the empty-module case; get_func_metadata on a parsed module; more than 3 functions / 3 instructions per function")
 
+prop("C14", "K", "model_checking",
+     text="Bounded model checking of the real run-length local bookkeeping (add_local/add_locals and every wrapper that forwards to it): for every initial declaration list within the bound, every parameter count and every sequence of 3 symbolic types, the returned index is params + previously declared locals, the declared type at that index is the requested one and existing locals keep index and type.",
+     technique="Kani/CBMC bounded model checking of add_local and its API wrappers against an index->type reference function",
+     outside="byte emission of the locals vector in the code section (wasm_encoder::Function::new) and ValType::from(&DataType) for the declared type (covered by C01's K-conv harnesses); ComponentIterator/ModuleIterator::add_local glue beyond Functions::add_local; more than 2 initial groups / 3 additions")
+
 
 def generated_harness_files(pid, tier, seed):
     return {}
